@@ -395,14 +395,66 @@ package classifier
 //@ spec wfCorpusDoc(d *indexedDocument) bool = wfDoc(d) && wfSet(d.s) && d.s.Tokens == d.Tokens
 //@ spec wfClassifier(c *Classifier) bool = c != nil && wfDict(c.dict) && c.docs != nil && c.q >= 1 && (forall l string :: (l in c.docs) ==> wfCorpusDoc(c.docs[l]) && nsep(l, runeStr(47)) >= 2)
 //@
+//@ func header
+//@   modifies nothing
+//@   props C10 C09
+//@
+//@ func normalizeToken
+//@   modifies nothing
+//@   props C10 C09
+//@
+//@ func cleanupToken
+//@   modifies nothing
+//@   props C10 C09
+//@
+//@ func flushBuf
+//@   requires wfDict(ld)
+//@   ensures wfDict(ld) && ld.words == old(ld.words) && ld.indices == old(ld.indices)
+//@   modifies entries(ld.words), entries(ld.indices)
+//@   props C10 C09
+//@
+//@ spec pseudo(m *Match, line int) bool = m != nil && m.Name == "Copyright" && m.MatchType == "Copyright" && m.Confidence == 1.0 && m.StartLine == line && m.EndLine == line
+//@
+//@ func stringifyLineBuf
+//@   requires dict != nil && ld != nil && (updateDict ==> wfDict(dict))
+//@   ensures result1 != nil ==> result0 == nil && fresh(result1) && pseudo(result1, line)
+//@   ensures forall i int :: 0 <= i && i < len(result0) ==> result0[i].Line == line
+//@   ensures result0 == nil || fresh(result0)
+//@   ensures dict.words == old(dict.words) && dict.indices == old(dict.indices)
+//@   modifies entries(dict.words) when updateDict
+//@   modifies entries(dict.indices) when updateDict
+//@   loop 3 invariant (tokens == nil || fresh(tokens)) && (forall i int :: 0 <= i && i < len(tokens) ==> tokens[i].Line == line)
+//@   props C10 C09 C03 C06
+//@
+//@ func appendToDoc
+//@   requires doc != nil && dict != nil && ld != nil && (updateDict ==> wfDict(dict)) && line >= 1
+//@   requires okLines(doc) && okPseudo(doc.Matches)
+//@   ensures okLines(doc) && okPseudo(doc.Matches)
+//@   ensures len(doc.Tokens) >= old(len(doc.Tokens)) && len(doc.Matches) >= old(len(doc.Matches))
+//@   ensures (doc.Tokens == nil || fresh(doc.Tokens) || ref(doc.Tokens) == old(ref(doc.Tokens))) && (doc.Matches == nil || fresh(doc.Matches) || ref(doc.Matches) == old(ref(doc.Matches)))
+//@   ensures dict.words == old(dict.words) && dict.indices == old(dict.indices)
+//@   ensures same(doc.f, old(doc.f)) && same(doc.dict, old(doc.dict)) && same(doc.s, old(doc.s)) && same(doc.runes, old(doc.runes)) && doc.Norm == old(doc.Norm)
+//@   modifies doc.Tokens, doc.Matches, elems(doc.Tokens), elems(doc.Matches)
+//@   modifies entries(dict.words) when updateDict
+//@   modifies entries(dict.indices) when updateDict
+//@   props C10 C09 C03 C06
+//@
 //@ func tokenizeStream
-//@   trusted
 //@   requires dict != nil && ((updateDict || !normalize) ==> wfDict(dict))
 //@   ensures result1 != nil ==> result0 == nil
 //@   ensures typeis(src, "*bytes.Reader") ==> result1 == nil
-//@   ensures result1 == nil ==> fresh(result0) && wfDoc(result0) && result0.dict == dict && result0.s == nil && fresh(result0.f) && fresh(result0.runes)
-//@   ensures wfDict(dict) == old(wfDict(dict)) && dict.words == old(dict.words) && dict.indices == old(dict.indices)
-//@   modifies entries(dict.words), entries(dict.indices) when updateDict || !normalize
+//@   ensures result1 == nil ==> fresh(result0) && wfDoc(result0) && result0.dict == dict && result0.s == nil && fresh(result0.f) && (result0.runes == nil || fresh(result0.runes))
+//@   ensures dict.words == old(dict.words) && dict.indices == old(dict.indices)
+//@   modifies entries(dict.words) when updateDict || !normalize
+//@   modifies entries(dict.indices) when updateDict || !normalize
+//@   loop 1 invariant tgt == 1020 && 0 <= idx && idx <= 4 && line >= 1 && wfDict(ld) && fresh(ld) && fresh(ld.words) && fresh(ld.indices)
+//@   loop 1 invariant okLines(&doc) && okPseudo(doc.Matches) && (doc.Tokens == nil || fresh(doc.Tokens)) && (doc.Matches == nil || fresh(doc.Matches))
+//@   loop 1 invariant (obuf == nil || fresh(obuf)) && (linebuf == nil || fresh(linebuf))
+//@   loop 2 invariant 0 <= idx && idx <= 1024 && 0 <= tgt && tgt <= 1024 && line >= 1 && wfDict(ld) && fresh(ld) && fresh(ld.words) && fresh(ld.indices)
+//@   loop 2 invariant okLines(&doc) && okPseudo(doc.Matches) && (doc.Tokens == nil || fresh(doc.Tokens)) && (doc.Matches == nil || fresh(doc.Matches))
+//@   loop 2 invariant (obuf == nil || fresh(obuf)) && (linebuf == nil || fresh(linebuf))
+//@   loop 3 invariant obuf == nil || fresh(obuf)
+//@   props C10 C03 C08 C09
 //@
 //@ func NewClassifier
 //@   requires 0.0 <= threshold && threshold <= 1.0
@@ -458,4 +510,34 @@ package classifier
 //@
 //@ func (*Classifier).Match
 //@   requires wfClassifier(c) && 0.0 <= c.threshold && c.threshold <= 1.0
+//@   props C10
+//
+//@ func (*indexedDocument).normalized
+//@   requires d != nil && d.dict != nil
+//@   modifies nothing
+//@   props C10 C09
+//
+// ---------------------------------------------------------------- Normalize, LoadLicenses
+//
+//@ func (*Classifier).Normalize
+//@   requires wfClassifier(c)
+//@   ensures wfClassifier(c)
+//@   modifies entries(c.dict.words), entries(c.dict.indices)
+//@   props C10 C04 C11
+//@
+//@ func (*Classifier).LoadLicenses$1
+//@   requires files != nil
+//@   ensures result == nil
+//@   ensures (err == nil && hasSuffix(path, "txt")) ==> len(*files) == old(len(*files)) + 1 && (*files)[len(*files)-1] == path
+//@   ensures !(err == nil && hasSuffix(path, "txt")) ==> same(*files, old(*files))
+//@   props C12 C10
+//@
+//@ func (*Classifier).LoadLicenses
+//@   requires wfClassifier(c)
+//@   ensures wfClassifier(c)
+//@   loop 1 invariant wfClassifier(c)
+//@   props C12 C10
+//@
+//@ func (*Classifier).SetTraceConfiguration
+//@   requires c != nil
 //@   props C10
